@@ -15,10 +15,41 @@ it with the congruence closure, reusable step lemmas are proved for every `Q`.
 namespace DarkluaModel.Sem.Heap
 variable {N : NumOps}
 
-abbrev CellRel := Nat → Nat → Prop
-def CellRel.le (β β' : CellRel) : Prop := ∀ a b, β a b → β' a b
-theorem CellRel.le_refl (β : CellRel) : β.le β := fun _ _ h => h
-theorem CellRel.le_trans {a b c : CellRel} (h1 : a.le b) (h2 : b.le c) : a.le c := fun _ _ h => h2 _ _ (h1 _ _ h)
+/-- a partial injection between cell ids together with a FRONTIER `(L, L')`: an extension may only add
+pairs at or beyond the frontier, so a cell below it that is unrelated stays unrelated forever (this is
+what lets one side write to a local the other side does not have, after arbitrary code has run) -/
+structure CellRel where
+  r : Nat → Nat → Prop
+  L : Nat := 0
+  L' : Nat := 0
+
+instance : CoeFun CellRel (fun _ => Nat → Nat → Prop) := ⟨CellRel.r⟩
+
+structure CellRel.le (β β' : CellRel) : Prop where
+  sub : ∀ a b, β a b → β' a b
+  fl : β.L ≤ β'.L
+  fr : β.L' ≤ β'.L'
+  fresh : ∀ a b, β' a b → β a b ∨ (β.L ≤ a ∧ β.L' ≤ b)
+
+theorem CellRel.le_refl (β : CellRel) : β.le β := ⟨fun _ _ h => h, Nat.le_refl _, Nat.le_refl _, fun _ _ h => .inl h⟩
+theorem CellRel.le_trans {a b c : CellRel} (h1 : a.le b) (h2 : b.le c) : a.le c :=
+  ⟨fun _ _ h => h2.sub _ _ (h1.sub _ _ h), Nat.le_trans h1.fl h2.fl, Nat.le_trans h1.fr h2.fr, fun x y h => by
+    rcases h2.fresh x y h with h | h
+    · exact h1.fresh x y h
+    · exact .inr ⟨Nat.le_trans h1.fl h.1, Nat.le_trans h1.fr h.2⟩⟩
+
+/-- a cell on the right that is below the frontier and unrelated: no extension ever relates it -/
+theorem CellRel.le.protectedRight {β β' : CellRel} (h : β.le β') {c' : Nat} (hlt : c' < β.L')
+    (hu : ∀ a, ¬ β a c') : ∀ a, ¬ β' a c' := fun a ha => by
+  rcases h.fresh a c' ha with h1 | h1
+  · exact hu a h1
+  · omega
+
+theorem CellRel.le.protectedLeft {β β' : CellRel} (h : β.le β') {c : Nat} (hlt : c < β.L)
+    (hu : ∀ b, ¬ β c b) : ∀ b, ¬ β' c b := fun b hb => by
+  rcases h.fresh c b hb with h1 | h1
+  · exact hu b h1
+  · omega
 
 abbrev QRel := List DName → FnBody → FnBody → Prop
 
@@ -47,7 +78,7 @@ def Cx.none : Cx := {}
 
 /-- the two local environments agree (through `β`) on every name outside `D` -/
 def EnvRel (β : CellRel) (D : List DName) (l l' : List (String × Nat)) : Prop :=
-  ∀ n, DName.ref n ∉ D → OptRel β (lookupAssoc n l) (lookupAssoc n l')
+  ∀ n, DName.ref n ∉ D → OptRel β.r (lookupAssoc n l) (lookupAssoc n l')
 
 /-- `D'` extends `D` without watching more names -/
 def DExt (D D' : List DName) : Prop := (∀ x ∈ D, x ∈ D') ∧ (∀ n, DName.wat n ∈ D' → DName.wat n ∈ D)
@@ -69,7 +100,7 @@ theorem OptRel.imp {α β : Type} {R S : α → β → Prop} (h : ∀ a b, R a b
   | some _, none, hr => hr
 
 theorem EnvRel.mono {β β' : CellRel} {D l l'} (h : EnvRel β D l l') (hβ : β.le β') : EnvRel β' D l l' :=
-  fun n hn => OptRel.imp hβ (h n hn)
+  fun n hn => OptRel.imp hβ.sub (h n hn)
 
 theorem EnvRel.weaken {β : CellRel} {D D' l l'} (h : EnvRel β D l l') (hD : ∀ x ∈ D, x ∈ D') : EnvRel β D' l l' :=
   fun n hn => h n (fun hx => hn (hD _ hx))
@@ -162,6 +193,8 @@ structure SRel (Q : QRel) (cx : Cx) (β : CellRel) (σ σ' : State N) : Prop whe
   bound : ∀ {a b}, β a b → a < σ.cells.length ∧ b < σ'.cells.length
   cell : ∀ {a b}, β a b → σ'.cells[b]? = σ.cells[a]?
   closures : Forall2 (CRel Q cx β) σ.closures σ'.closures
+  /-- the frontier is at most the current allocation point -/
+  front : β.L ≤ σ.cells.length ∧ β.L' ≤ σ'.cells.length
 
 /-- relation on result payloads, indexed by the current injection -/
 abbrev ARel (α : Type) := CellRel → α → α → Prop
